@@ -384,6 +384,24 @@ func (t *trans) expr(e ast.Expr) string {
 		}
 		return t.varName(x.Name)
 	case *ast.SelectorExpr:
+		// X.<Something>URL.Scheme / .Path where X is a (pointer to a) structure of this repository: a function of that structure
+		if x.Sel.Name == "Scheme" || x.Sel.Name == "Path" {
+			if inner, ok := x.X.(*ast.SelectorExpr); ok && strings.HasSuffix(inner.Sel.Name, "URL") && inner.Sel.Name != "URL" {
+				if tv, ok := t.info.Types[inner.X]; ok && tv.Type != nil {
+					if sn, _ := namedOf(tv.Type); sn != "" {
+						if _, known := t.structs[sn]; known {
+							field := "url" + x.Sel.Name + "_" + sn + "_" + inner.Sel.Name
+							t.addExtern(field, t.leanType(ast.NewIdent(sn))+" → String")
+							base := t.expr(inner.X)
+							if isPointer(tv.Type) {
+								base = t.derefd(inner.X)
+							}
+							return "(env." + field + " " + base + ")"
+						}
+					}
+				}
+			}
+		}
 		// r.URL.Scheme of an *http.Request: a function of the request
 		if x.Sel.Name == "Scheme" {
 			if inner, ok := x.X.(*ast.SelectorExpr); ok && inner.Sel.Name == "URL" {
@@ -539,7 +557,16 @@ func (t *trans) expr(e ast.Expr) string {
 						if be, isB := kv.Value.(*ast.BinaryExpr); isB && (be.Op == token.EQL || be.Op == token.NEQ) {
 							isCmp = true
 						}
-						if !isCmp && (!ok || tvv.Type == nil || !simple(tvv.Type)) {
+						unknown := !ok || tvv.Type == nil
+						if !unknown {
+							if b, isB := tvv.Type.Underlying().(*types.Basic); isB && b.Kind() == types.Invalid {
+								unknown = true
+							}
+						}
+						// a *call* go/types cannot type (it goes through a package that is not loaded) is translated all the same:
+						// if the translator cannot make sense of it, that is a recorded failure, not a silently dropped field
+						_, isCall := kv.Value.(*ast.CallExpr)
+						if !isCmp && !(unknown && isCall) && (unknown || !simple(tvv.Type)) {
 							continue
 						}
 						k := t.src(kv.Key)
@@ -868,6 +895,12 @@ func (t *trans) call(c *ast.CallExpr) string {
 			if len(c.Args) == 2 {
 				return t.expr(c.Args[1])
 			}
+		case "base64.RawURLEncoding.EncodeToString":
+			if len(c.Args) == 1 && strings.HasPrefix(t.src(c.Args[0]), "randomBytes(") {
+				// a fresh index drawn from the package's random source: one unknown of the function
+				t.addExtern("randomIndex", "String")
+				return "env.randomIndex"
+			}
 		case "net.SplitHostPort":
 			t.addExtern("splitHostPort", "String → Outcome (String × String × GoError)")
 			return "(← env.splitHostPort " + t.expr(c.Args[0]) + ")"
@@ -1046,6 +1079,12 @@ func (t *trans) call(c *ast.CallExpr) string {
 				return "(" + t.expr(f.X) + " > " + t.expr(c.Args[0]) + ")"
 			}
 		case "String":
+			if inner, ok := f.X.(*ast.SelectorExpr); ok && inner.Sel.Name == "URL" && len(c.Args) == 0 {
+				if tv, ok := t.info.Types[inner.X]; ok && tv.Type != nil && strings.HasSuffix(tv.Type.String(), "http.Request") {
+					t.addExtern("requestURL", "HTTPRequest → String")
+					return "(env.requestURL " + t.derefd(inner.X) + ")"
+				}
+			}
 			if len(c.Args) == 0 {
 				return t.expr(f.X) + ".str"
 			}
@@ -1282,6 +1321,12 @@ func (t *trans) retExpr(results []ast.Expr) string {
 		v := "default"
 		if len(results) == 1 {
 			v = t.expr(results[0])
+		} else if len(results) > 1 {
+			var parts []string
+			for _, r := range results {
+				parts = append(parts, t.expr(r))
+			}
+			v = "(" + strings.Join(parts, ", ") + ")"
 		}
 		if t.cur.mutRecv {
 			return "(" + t.cur.recv + ", (" + v + ", trace'))"
@@ -2337,6 +2382,7 @@ func translate(repo string, p *pkgFiles, outPath string) {
 		{fn: "GetTrackedRequest", recv: "CookieRequestTracker"},
 		{fn: "DefaultServiceProvider", as: "defaultServiceProviderTail", anchor: "var forceAuthn *bool"},
 		{fn: "DefaultSessionProvider"},
+		{fn: "TrackRequest", recv: "CookieRequestTracker", trace: true},
 		{fn: "GetSession", recv: "CookieSessionProvider", as: "cookieGetSession"},
 		{fn: "CreateSession", recv: "CookieSessionProvider", as: "cookieCreateSession", trace: true, mutRecv: true},
 		{fn: "Decode", recv: "JWTTrackedRequestCodec", as: "trackedRequestClaimsCheck", anchor: "if err != nil {"},
